@@ -37,7 +37,7 @@ func (c17l3) Meta() core.Meta {
 			"oracle": "serial pre-pass in the traced process on twin objects; snapshots of shared buffers"},
 		Assumptions: []string{"one or two preemptions per experiment", "preemption points are library instructions (PC inside the module's text); instructions in the Go runtime are stepped through but never chosen",
 			"a traced process that cannot be driven (lost sync, watchdog) is counted inconclusive, never a violation"},
-		FaultKinds: []string{"preempt-in-asm", "preempt-in-go-glue", "double-preemption", "same-ciphertext-both-open"},
+		FaultKinds: []string{"preempt-in-asm", "preempt-in-go-glue", "double-preemption", "same-ciphertext-both-open", "history:open-forged"},
 		ProbeNames: []string{"preempted-inside:sm4.sealAsm", "preempted-inside:sm4.openAsm", "preempted-inside:sm4.cryptoBlockAsm", "preempted-inside:sm4.expandKeyAsm", "inconclusive", "calibrations"},
 		StepUnit:   "single-stepped instructions",
 	}
@@ -67,6 +67,11 @@ func (c17l3) Generate(idx int, r *core.Rand, tier string) core.Script {
 	if w.Chance(1, 2) { // identical calls on the same buffers
 		s.B.Kind, s.B.Msg, s.B.Nonce = s.A.Kind, s.A.Msg, s.A.Nonce
 	}
+	if w.Chance(1, 3) { // history on the shared objects before the clients start
+		for i := w.Range(1, 2); i > 0; i-- {
+			s.Prelude = append(s.Prelude, []string{"open-forged", "open-forged", "open-ok", "seal"}[w.Intn(4)])
+		}
+	}
 	s.KPm = sc.Intn(1000)
 	if sc.Chance(1, 4) {
 		s.K2Pm = sc.Intn(1000)
@@ -90,7 +95,7 @@ func l3Class(s *c17l3Script, op l3Op) string {
 	if op.Msg&1 == 1 {
 		msgLen, aad = s.B.PtLen, s.B.AadLen
 	}
-	return fmt.Sprint(op.Kind, msgLen, aad, s.AEAD.NonceSize, s.AEAD.TagSize, op.Dst.Mode, op.Dst.Len, op.Dst.Spare)
+	return fmt.Sprint(op.Kind, msgLen, aad, s.AEAD.NonceSize, s.AEAD.TagSize, op.Dst.Mode, op.Dst.Len, op.Dst.Spare, s.Prelude)
 }
 
 // l3Calibrate measures how many library instructions client 0 (A) or 1 (B) executes in
@@ -197,6 +202,11 @@ func (c17l3) Execute(sc core.Script, keep bool) *core.Result {
 	if k2 > 0 && o.Preempt2 != "" {
 		res.Faults["double-preemption"]++
 	}
+	for _, st := range s.Prelude {
+		if st == "open-forged" {
+			res.Faults["history:open-forged"]++
+		}
+	}
 	if s.A.Kind == "Open" && s.B.Kind == "Open" && s.A.Msg&1 == s.B.Msg&1 {
 		res.Faults["same-ciphertext-both-open"]++
 	}
@@ -273,6 +283,11 @@ func (c17l3) Shrinks(sc core.Script) []core.Script {
 	if s.A.AadLen > 0 || s.B.AadLen > 0 {
 		c := cp()
 		c.A.AadLen, c.B.AadLen = 0, 0
+		out = append(out, c)
+	}
+	for i := range s.Prelude {
+		c := cp()
+		c.Prelude = append(append([]string{}, s.Prelude[:i]...), s.Prelude[i+1:]...)
 		out = append(out, c)
 	}
 	if s.A.Dst.Mode != "nil" || s.B.Dst.Mode != "nil" {
